@@ -42,6 +42,13 @@ def run(v, tier, rng):
                 outs.append(None)
             else:
                 outs.append(r["calls"][0]["out"])
+        st = [(res["%d_%d" % (bi, oi)].get("calls") or [{}])[0].get("diag") for oi in range(len(ORGS))]
+        if any(x is True for x in st) and any(x is False for x in st):
+            oa, ob = st.index(False), st.index(True)
+            v.violation("the program assembles cleanly at one origin and is diagnosed (statement dropped) at another",
+                        {"source_a": A.p_program(with_org(b, ORGS[oa])), "source_b": A.p_program(with_org(b, ORGS[ob])),
+                         "out_a": res["%d_%d" % (bi, oa)]["calls"][0]["out"], "out_b": res["%d_%d" % (bi, ob)]["calls"][0]["out"],
+                         "diag_b": res["%d_%d" % (bi, ob)]["calls"][0].get("diag_msgs")})
         # no ORG means origin 0
         if outs[0] is not None and outs[1] is not None and outs[0] != outs[1]:
             v.violation("without ORG the origin is not 0", {"source_a": A.p_program(with_org(b, None)), "source_b": A.p_program(with_org(b, 0)), "out_a": outs[0], "out_b": outs[1]})
